@@ -40,6 +40,96 @@ def run(model, res, tier):
     n = purity.check_region(res, c, 'R5', None, c.reach, 'evaluation', lints=('shared',))
     res.floor('mutation events examined for R5', n, 10)
     purity.check_memo(res, c, 'R5', c.reach, 'a function used during evaluation')
+    res.rule('R6', 'a parser made from another one by the copy methods the class defines (__copy__, __deepcopy__, copy, clone) is a parser of '
+             'its own: what is registered on either afterwards is invisible to the other')
+    H.safely(res, 'R6', 'copies', copies_are_independent, model, res, c, 'R6')
+
+
+COPY_HOOKS = ('__copy__', '__deepcopy__', 'copy', 'clone')
+
+
+def copies_are_independent(model, res, c, R):
+    """Scripted history on the abstract parser object (E4; lists and dicts are objects with identity there): register, copy through the
+    class's own hook, register on each side, emit on the other side."""
+    from ..absint import Interp, Const, Builtin, ClassV, DictV, ListV, Obj, Unmodelled
+    pm, pcls = c.cg.cls_of[c.root]
+    hooks = []
+    for hook in COPY_HOOKS:
+        lm = model.lookup_method(pm, pcls, hook)
+        if lm:
+            hooks.append((hook, lm))
+    if not hooks:
+        res.ob(R, pcls.name, 'copy methods defined by the parser classes', True, 'none: copy.deepcopy builds an independent parser from the '
+               'instance dictionaries, copy.copy shares them as for any object')
+        return
+    for hook, lm in hooks:
+        site = '%s.%s' % (lm[1].name, hook)
+        for direction in ('copy-then-register-on-copy', 'copy-then-register-on-original'):
+            def script(interp, st, hook=hook, direction=direction):
+                p, _g = H.host_objects(interp, model, c)
+                seen = []
+
+                def cb(label):
+                    def fn(interp2, args, kwargs, label=label):
+                        interp2.state.events.append(('called', label))
+                        return Const(None)
+                    interp.extern['hx:copy:' + label] = fn
+                    return Builtin('hx:copy:' + label)
+                interp.call(interp.get_method(p, 'on'), [Const('e'), cb('F')])
+                sv = interp.get_method(p, 'set_variable')
+                if sv is not None:
+                    interp.call(sv, [Const('V'), Const(1)])
+                h = interp.get_method(p, hook)
+                q = interp.call(h, [DictV([])] if hook == '__deepcopy__' else [])
+                if not isinstance(q, Obj):
+                    raise Unmodelled('%s does not yield a parser object the interpreter can follow (%r)' % (hook, q))
+                if q is p:
+                    st.events.append(('same-object',))
+                    return Const(None)
+                a, b = (q, p) if direction == 'copy-then-register-on-copy' else (p, q)
+                interp.call(interp.get_method(a, 'on'), [Const('e'), cb('G')])
+                sv = interp.get_method(a, 'set_variable')
+                if sv is not None:
+                    interp.call(sv, [Const('W'), Const(2)])
+                sf = interp.get_method(a, 'set_function')
+                if sf is not None:
+                    interp.call(sf, [Const('FN'), cb('H')])
+                st.events.append(('emit-on-other',))
+                interp.call(interp.get_method(b, 'emit'), [Const('e'), Const('x')])
+                for attr, key in (('variables', 'W'), ('functions', 'FN')):
+                    d = b.attrs.get(attr)
+                    if isinstance(d, DictV) and d.lookup(Const(key)) is not None:
+                        st.events.append(('leaked', attr, key))
+                return Const(None)
+            case = {'hook': hook, 'history': direction}
+            try:
+                outs = Interp(model).run(script)
+            except Unmodelled as e:
+                res.ob(R, site, case, True, 'undecided: %s' % e)
+                continue
+            outs = [o for o in outs if not o.imprecise]
+            if not outs or any(o.kind != 'return' for o in outs):
+                res.ob(R, site, case, True, 'undecided: %s' % (H.describe(outs)[:2] if outs else 'imprecise'))
+                continue
+            bad = []
+            for o in outs:
+                evs = [e for e in o.events if isinstance(e, tuple)]
+                if ('same-object',) in evs:
+                    bad.append('the "copy" is the parser itself')
+                    continue
+                if ('emit-on-other',) not in evs:
+                    continue
+                after = evs[evs.index(('emit-on-other',)) + 1:]
+                if ('called', 'G') in after:
+                    bad.append('a listener subscribed on one of the two after the copy is called by an emit on the other')
+                for e in after:
+                    if e[0] == 'leaked':
+                        bad.append('%s[%r] set on one of the two after the copy is present on the other' % (e[1], e[2]))
+            res.ob(R, site, case, not bad, '; '.join(bad) if bad else 'independent')
+            if bad:
+                res.violation(R, '%s:%s:copy-shares-state' % (lm[0].name, site), lm[0].where(lm[2]),
+                              '%s gives a parser that shares state with the one it was made from (%s): %s - registrations on one parser are '
+                              'visible to another' % (site, direction, '; '.join(sorted(set(bad)))), case=case, func=site)
 
 
 def _r1(model, res, c, R='R1'):
@@ -303,6 +393,22 @@ def shared_locks(model, res, c, R):
                 res.violation(R, '%s:%s:shared-lock-held-over-host-code' % k, m.where(n), why, func=k[1])
 
 
+def _at_import_time(m, node):
+    """``node`` sits in a decorator of a module-level def/class or in a module-level statement outside any function."""
+    for top in m.tree.body:
+        if isinstance(top, (ast.FunctionDef, ast.ClassDef)):
+            for d in top.decorator_list:
+                if any(x is node for x in ast.walk(d)):
+                    return True
+            if isinstance(top, ast.ClassDef):
+                for sub in top.body:
+                    if isinstance(sub, ast.FunctionDef) and any(x is node for d in sub.decorator_list for x in ast.walk(d)):
+                        return True
+        elif any(x is node for x in ast.walk(top)) and m.enclosing_function(node) is None:
+            return True
+    return False
+
+
 def _r3(model, res, c):
     cg = c.cg
     eff = c.effects
@@ -381,6 +487,17 @@ def _r3(model, res, c):
             if isinstance(n, ast.Attribute) and n.attr == 'register_for':
                 n_ref += 1
                 ok = id(n) in deco_ids or id(n) in import_time
+                if not ok:
+                    # a sibling method of the dispatcher that wraps and then registers (register_numeric): fine when that method is itself
+                    # used only as a module-level decorator / import-time statement
+                    fn_ = m.enclosing_function(n)
+                    top_ = fn_
+                    while top_ is not None and m.enclosing_function(top_) is not None:
+                        top_ = m.enclosing_function(top_)
+                    if top_ is not None and top_.name in model.registering_methods() and m.enclosing_class(top_) is not None:
+                        uses = [(mm, x) for mm in model.modules.values() for x in ast.walk(mm.tree)
+                                if isinstance(x, ast.Attribute) and x.attr == top_.name]
+                        ok = bool(uses) and all(_at_import_time(mm, x) for mm, x in uses)
                 if not ok:
                     res.ob('R3', '%s:%s' % (m.name, m.qualname_of(n)), 'reference %s' % src(m.parent(n) or n), False)
                     res.violation('R3', '%s:%s:register_for-at-runtime' % (m.name, m.qualname_of(n)), m.where(n),
